@@ -11521,8 +11521,9 @@ class TensorDictBase(MutableMapping):
         _last_op = self._last_op_queue.pop()
         if exc_type is not None and issubclass(exc_type, Exception):
             # The body raised: results of shape operations are not written back, but a
-            # parameter swap must be undone or the module is left without its parameters.
-            if _last_op is not None and _last_op[0] == "to_module":
+            # parameter swap must be undone or the module is left without its parameters,
+            # and a temporary lock_() / unlock_() must be reverted or the lock state leaks.
+            if _last_op is not None and _last_op[0] in ("to_module", "lock_", "unlock_"):
                 last_op, (args, kwargs, out_wr) = _last_op
                 LAST_OP_MAPS[last_op](self, args, kwargs, out_wr())
             return False
@@ -13322,9 +13323,11 @@ class TensorDictBase(MutableMapping):
                 sub_td._check_unlock()
 
             self._check_unlock()
-        except RuntimeError as err:
+        except Exception:
+            # whatever went wrong (including a failure while building the error message),
+            # the flags cleared by _propagate_unlock must be restored
             self.lock_()
-            raise err
+            raise
         return self
 
     # Conversion (device or dtype)
